@@ -150,7 +150,7 @@ def run(ctx):
     h = ctx.build_harness("harness.cpp")
     if not (drv and h):
         return
-    n = 400 if ctx.tier == "quick" else 8000
+    n = 400 if ctx.tier == "quick" else 4000
     if ctx.broken:
         n *= 10
     corpus = [l.strip() for l in open(ctx.pdir + "/corpus.txt") if l.strip() and not l.startswith("#")]
